@@ -1210,8 +1210,8 @@ impl Bmi2SequenceOps {
             return 0;
         }
 
-        // Count leading ones in the masked word
-        let mask = (1u64 << (bit_offset + 1)) - 1;
+        // Count leading ones in the masked word (bit_offset + 1 == 64 keeps the whole word)
+        let mask = if bit_offset + 1 >= 64 { u64::MAX } else { (1u64 << (bit_offset + 1)) - 1 };
         let masked_word = word & mask;
         let leading_ones = Self::count_leading_ones_in_mask(masked_word, bit_offset + 1);
         
@@ -1263,7 +1263,8 @@ impl Bmi2SequenceOps {
             return 0;
         }
         
-        if word == (1u64 << bit_count) - 1 {
+        let full = if bit_count >= 64 { u64::MAX } else { (1u64 << bit_count) - 1 };
+        if word == full {
             return bit_count;
         }
         
